@@ -678,8 +678,9 @@ def run_fit(op: Op, U, cfg: Dict[str, Any], constraint: Any, dtype: torch.dtype,
     torch.manual_seed(rng_seed)
     fr.inputs_u = au
     if cfg.get("_positional"):
+        from .api_orders import FUNCTIONS
         from .instruments import PositionalProxy
-        U = PositionalProxy(U)  # the same call with every argument up to the last given one passed by position
+        U = PositionalProxy(U, FUNCTIONS)  # every argument up to the last given one passed by position, in the documented order
     with ScaleSpy() as spy:
         try:
             yu = op.call_u(U, au, cfg, constraint)
